@@ -1108,6 +1108,14 @@ def guarded_by_pred(body, x, pred, depth=0, side=True):
                     continue
             if kind == "rv" and pl["k"] == "bin" and _pos(pred({"k": "bin", "op": pl["op"], "a": pl["a"], "b": pl["b"], "bb": bb})):
                 continue
+            if kind == "rv" and pl["k"] == "un" and pl.get("op") == "Not":
+                # `flag = !x`: the flag holds the negation of x
+                o = origin(body, pl["a"])
+                n = 1
+                while o["k"] == "not":
+                    o = o["a"]; n += 1
+                if (n % 2 == 0 and _pos(pred(o))) or (n % 2 == 1 and pred(o) == "neg"):
+                    continue
             if guarded_by_pred(body, bb, pred, depth + 1, side):
                 continue
             ok = False
